@@ -104,6 +104,25 @@ pub fn position_grid(t: &str, rng: &mut Rng, max_inside: usize) -> Vec<(u32, u32
     out
 }
 
+/// every UTF-16 column (0..=length) of every line; `only_interesting`: just the lines that hold comments, strings
+/// or completion triggers (where token-internal boundaries matter). A column inside a surrogate pair is included too.
+pub fn dense_positions(t: &str, only_interesting: bool) -> Vec<(u32, u32)> {
+    let ls = lines(t);
+    let mut out = vec![];
+    for (k, (s, e, n)) in ls.iter().enumerate() {
+        let line = &t[*s..*e];
+        let interesting = line.contains("--") || line.contains('"') || line.contains('\'') || line.contains('#')
+            || line.contains('[') || line.contains('(') || line.contains('.') || line.contains(':') || line.trim().is_empty();
+        if only_interesting && !interesting {
+            continue;
+        }
+        for c in 0..=*n {
+            out.push((k as u32, c as u32));
+        }
+    }
+    out
+}
+
 pub fn pos_json(p: (u32, u32)) -> serde_json::Value {
     serde_json::json!({"line": p.0, "character": p.1})
 }
@@ -120,6 +139,9 @@ pub fn documents(rng: &mut Rng, n_valid: usize, n_invalid: usize) -> Vec<(String
     }
     for _ in 0..n_invalid {
         v.push((crate::gen_lua::invalid(rng), "invalid"));
+    }
+    for _ in 0..(n_valid / 3).max(1) {
+        v.push((crate::gen_lua::split_lines(rng), "split"));
     }
     v
 }
